@@ -269,7 +269,7 @@ theorem flat_steps (orc : Oracle) : ∀ (os os0 : List Opt) (ts : List (Tok × N
     (∀ p ∈ pre, ∀ o ∈ os, titleEq f.cfg.flags.nocase p.name o.name = false) →
     List.Pairwise (fun a b => titleEq f.cfg.flags.nocase a.name b.name = false) os →
     ∃ f' done, parseToks orc m ts = { m with frames := f' :: rest } ∧ AtItem f' ∧ f'.level = f.level ∧ f'.back = f.back ∧
-      f'.cfg.opts = pre ++ done ∧ f'.cfg.flags = f.cfg.flags ∧ f'.cfg.info.pff = f.cfg.info.pff ∧
+      f'.opttitle = f.opttitle ∧ f'.cfg.opts = pre ++ done ∧ f'.cfg.flags = f.cfg.flags ∧ f'.cfg.info.pff = f.cfg.info.pff ∧
       All2 (fun r o => r.vals = o.vals) done os ∧
       All2 (fun r o0 => r.info = o0.info ∧ r.flags.list = o0.flags.list ∧ r.comment = o0.comment) done os0 := by
   intro os
@@ -278,7 +278,7 @@ theorem flat_steps (orc : Oracle) : ∀ (os os0 : List Opt) (ts : List (Tok × N
     intro os0 ts m f rest pre hft hal hrun hfr hat hopts _ _
     cases hft
     cases hal
-    refine ⟨f, [], ?_, hat, rfl, rfl, by simpa using hopts, rfl, rfl, All2.nil, All2.nil⟩
+    refine ⟨f, [], ?_, hat, rfl, rfl, rfl, by simpa using hopts, rfl, rfl, All2.nil, All2.nil⟩
     obtain ⟨frames, srcs, status, diags, trace, pi, md⟩ := m
     simp only at hfr; subst hfr
     rfl
@@ -290,13 +290,13 @@ theorem flat_steps (orc : Oracle) : ∀ (os os0 : List Opt) (ts : List (Tok × N
       | cons hA hAs =>
         rename_i o0 os0'
         obtain ⟨hname, hty, hlist, hd⟩ := hA
-        obtain ⟨f1, res, e1, hat1, hlev1, hbk1, _hot1, hopts1, hfl1, hpf1, hv1, hi1, hdep1, hls1, hcm1⟩ :=
+        obtain ⟨f1, res, e1, hat1, hlev1, hbk1, hot1, hopts1, hfl1, hpf1, hv1, hi1, hdep1, hls1, hcm1⟩ :=
           opt_step orc m f rest o o0 pre os0' ts1 hrun hfr hat hopts (fun p hp => hpre p hp o (by simp)) hname hty hlist hd h1
         rw [parseToks_append, e1]
         have hresname : res.name = o.name := by
           have : res.name = o0.name := by simp [Opt.name, hi1]
           rw [this, hname]
-        obtain ⟨f2, done, e2, hat2, hlev2, hbk2, hopts2, hfl2, hpf2, hv2, hd2⟩ :=
+        obtain ⟨f2, done, e2, hat2, hlev2, hbk2, hot2, hopts2, hfl2, hpf2, hv2, hd2⟩ :=
           ih os0' tss { m with frames := f1 :: rest } f1 rest (pre ++ [res]) h2 hAs hrun rfl hat1
             (by rw [hopts1]; simp)
             (by
@@ -309,7 +309,7 @@ theorem flat_steps (orc : Oracle) : ∀ (os os0 : List Opt) (ts : List (Tok × N
                 rw [hresname]
                 exact (List.pairwise_cons.mp hpw).1 o' ho')
             (by rw [hfl1]; exact (List.pairwise_cons.mp hpw).2)
-        refine ⟨f2, res :: done, e2, hat2, by rw [hlev2, hlev1], by rw [hbk2, hbk1], by rw [hopts2]; simp, by rw [hfl2, hfl1], by rw [hpf2, hpf1],
+        refine ⟨f2, res :: done, e2, hat2, by rw [hlev2, hlev1], by rw [hbk2, hbk1], by rw [hot2, hot1], by rw [hopts2]; simp, by rw [hfl2, hfl1], by rw [hpf2, hpf1],
           All2.cons hv1 hv2, All2.cons ⟨hi1, hls1, hcm1⟩ hd2⟩
 
 end Confuse
